@@ -205,6 +205,8 @@ def store_route(kind, spec, s, accepted_by_spec):
         try:
             v = st['t.x']
             return f'INI layer rejects the text but the store yields {v!r}', 'x'
+        except hi.MissingInput:
+            return 'supplied text (rejected by the INI layer) is reported as a missing input', 'x'
         except Exception:
             return None, 'ini-rejects'
     try:
